@@ -66,25 +66,25 @@ type c19Rec struct {
 	Pad     int    `json:"pad"`
 }
 type c19In struct {
-	Kind    string    `json:"kind"`
-	Data    string    `json:"data,omitempty"`
-	Hello   *c19Hello `json:"hello,omitempty"`
-	Which   int       `json:"which,omitempty"`
-	Info    *c19Info  `json:"info,omitempty"`
-	UA      string    `json:"ua,omitempty"`
-	Name    string    `json:"name,omitempty"`
-	BC      bool      `json:"bluecoat,omitempty"`
-	FC      bool      `json:"fcckv2,omitempty"`
-	Sizes   []int     `json:"sizes,omitempty"`
-	Values  []string  `json:"values,omitempty"`
-	FailAt  *int      `json:"failat,omitempty"`
-	Recs    []c19Rec  `json:"recs,omitempty"`
-	Tail    int       `json:"tail,omitempty"`
-	Buf     int       `json:"buf,omitempty"`
-	KLen    int       `json:"klen,omitempty"`
-	VLen    int       `json:"vlen,omitempty"`
-	Empty   string    `json:"empty,omitempty"`
-	Sub     string    `json:"sub,omitempty"`
+	Kind   string    `json:"kind"`
+	Data   string    `json:"data,omitempty"`
+	Hello  *c19Hello `json:"hello,omitempty"`
+	Which  int       `json:"which,omitempty"`
+	Info   *c19Info  `json:"info,omitempty"`
+	UA     string    `json:"ua,omitempty"`
+	Name   string    `json:"name,omitempty"`
+	BC     bool      `json:"bluecoat,omitempty"`
+	FC     bool      `json:"fcckv2,omitempty"`
+	Sizes  []int     `json:"sizes,omitempty"`
+	Values []string  `json:"values,omitempty"`
+	FailAt *int      `json:"failat,omitempty"`
+	Recs   []c19Rec  `json:"recs,omitempty"`
+	Tail   int       `json:"tail,omitempty"`
+	Buf    int       `json:"buf,omitempty"`
+	KLen   int       `json:"klen,omitempty"`
+	VLen   int       `json:"vlen,omitempty"`
+	Empty  string    `json:"empty,omitempty"`
+	Sub    string    `json:"sub,omitempty"`
 }
 
 func c19Hex(s string) []byte {
@@ -900,7 +900,7 @@ func c19Run(in0 interface{}) Result {
 		return c19RunTLS(in)
 	case "replace":
 		return c19RunReplace(in)
-	case "basicauth", "http":
+	case "basicauth", "http", "tlsraw":
 		return c19RunTotal(in)
 	}
 	panic("bad kind " + in.Kind)
@@ -1235,6 +1235,37 @@ func c19RunTotal(in *c19In) Result {
 			res.Direct = "basicauth panicked: " + msg
 		}
 		return res
+	case "tlsraw": // a raw TLS record written to the running TLS server: tlsHelloListener.Accept ->
+		// clientHelloConn.Read -> parseRawClientHello inside net/http's connection goroutine
+		_, addr := c19GetTLSServer()
+		c19Log.take()
+		raw := c19Hex(in.Data)
+		conn, err := net.DialTimeout("tcp", addr, time.Second)
+		if err != nil {
+			panic("harness: dial tls server: " + err.Error())
+		}
+		conn.SetDeadline(time.Now().Add(2 * time.Second))
+		conn.Write(raw)
+		if tc, ok := conn.(*net.TCPConn); ok {
+			tc.CloseWrite()
+		}
+		reply, _ := io.ReadAll(conn) // an alert or nothing; the server closes
+		conn.Close()
+		logs := ""
+		for try := 0; try < 40; try++ { // the handshake error (or the panic) is logged by the connection goroutine
+			logs += c19Log.take()
+			if logs != "" {
+				break
+			}
+			time.Sleep(5 * time.Millisecond)
+		}
+		p := strings.Contains(logs, "panic")
+		res := Result{Term: cApp("CTotal", "3%N", cBool(p)), Obs: map[string]interface{}{"reply_len": len(reply), "log": c19Trunc(logs, 400)},
+			Sig: "tlsraw", Nontrivial: len(raw) >= 5+42, Class: fmt.Sprintf("tlsraw:reply=%v", len(reply) > 0)}
+		if p {
+			res.Direct = "TLS connection handling panicked on the peer's ClientHello: " + c19Trunc(logs, 300)
+		}
+		return res
 	default: // http: raw request bytes to the running server
 		addr := c19GetServer()
 		c19Log.take()
@@ -1377,6 +1408,74 @@ func c19GenHello(r *Rand) *c19Hello {
 		}
 	}
 	return h
+}
+
+// c19LastExtHellos enumerates structured hellos whose LAST extension has type [typ] and a declared
+// length of [L] bytes, for the places where a parser reads an extension body before (or without)
+// testing its length: the body is exactly L bytes (zeros, a consistent 16-bit or 8-bit inner list
+// length, the same off by one in both directions, 0xff), optionally followed by 1 or 3 stray bytes,
+// or one byte short of what is declared; the extensions length and the handshake length are
+// always consistent with the bytes present, so the outer checks pass.  [pre] = extensions in front.
+func c19LastExtHellos(typ uint16, L int, pre []c19Ext, all bool) [][]byte {
+	var out [][]byte
+	seen := map[string]bool{}
+	fill := func(first []byte, pat byte) []byte {
+		b := make([]byte, L)
+		for i := range b {
+			b[i] = pat
+			if i%2 == 1 && pat == 0 {
+				b[i] = 0x1d // 00 1d 00 1d ..: a list of curve ids / plausible list bytes
+			}
+		}
+		copy(b, first)
+		return b
+	}
+	u16 := func(n int) []byte { return []byte{byte(n >> 8), byte(n)} }
+	bodies := [][]byte{
+		fill(nil, 0),
+		fill(u16(L-2), 0), fill(u16(L-1), 0), fill(u16(L-3), 0), fill(u16(L), 0), // 16-bit inner length: right, +1, -1, +2
+		fill([]byte{byte(L - 1)}, 0), fill([]byte{byte(L)}, 0), fill([]byte{byte(L - 2)}, 0), // 8-bit inner length: right, +1, -1
+		fill(nil, 0xff),
+	}
+	base := &c19Hello{Version: 0x0303, Random: c19H(bytes.Repeat([]byte{0x52}, 32)), Sid: "", Ciphers: []uint16{0xc02b, 0xc02f}, Comp: "00", Exts: pre}
+	enc := base.encode() // handshake header(4) .. extensions length(2) .. extensions
+	extOff := len(enc)
+	for _, e := range pre {
+		switch e.K {
+		case "curves":
+			extOff -= 4 + 2 + 2*len(e.Curves)
+		case "points":
+			extOff -= 4 + 1 + len(c19Hex(e.Body))
+		default:
+			extOff -= 4 + len(c19Hex(e.Body))
+		}
+	}
+	extOff -= 2
+	emit := func(tail []byte) {
+		b := append([]byte(nil), enc...)
+		b = append(b, tail...)
+		n := len(b) - extOff - 2
+		b[extOff], b[extOff+1] = byte(n>>8), byte(n)
+		m := len(b) - 4
+		b[1], b[2], b[3] = byte(m>>16), byte(m>>8), byte(m)
+		if !seen[string(b)] {
+			seen[string(b)] = true
+			out = append(out, b)
+		}
+	}
+	for _, body := range bodies {
+		hdr := append(u16(int(typ)), u16(L)...)
+		ext := append(append([]byte(nil), hdr...), body...)
+		emit(ext)                                    // the extension ends the hello
+		emit(append(append([]byte(nil), ext...), 0)) // one stray byte after it
+		if all {
+			emit(append(append([]byte(nil), ext...), 0, 10, 0)) // three stray bytes (not a whole extension header)
+		}
+		if L >= 1 {
+			emit(ext[:len(ext)-1]) // one byte short of the declared length
+		}
+	}
+	return out
 }
 
 // structure-aware mutation of a valid hello message
@@ -1650,6 +1749,41 @@ func c19Gen(r *Rand, tier string) []interface{} {
 	for i := 0; i < 60*mult; i++ {
 		add(&c19In{Kind: "parse", Data: c19H(c19RandBytes(r, []int{0, 1, 41, 42, 43, 44, 45, 50, 75, 76, 120}[r.Intn(11)]))})
 	}
+	// every extension type in LAST position with a declared length of 0..3 (thorough: 0..5) and a body
+	// of exactly that many bytes (see c19LastExtHellos): through the parser, through clientHelloConn
+	// (one read and two reads), and — a subset — as a raw record to the running TLS server
+	{
+		types := []uint16{0, 5, 10, 11, 13, 16, 35, 43, 51, 65281, 0x0a0a, 0x1234}
+		maxL := 3
+		if tier == "thorough" {
+			types = append(append([]uint16(nil), c19ExtPool...), 0x1234, 0xffff, 1, 9, 12)
+			maxL = 5
+		}
+		pres := [][]c19Ext{nil, {{K: "other", Type: 0, Body: c19H([]byte{0, 7, 0, 0, 4, 'a', '.', 'b', 'c'})}, {K: "curves", Curves: []uint16{29, 23, 24}}, {K: "points", Body: "00"}}}
+		record := func(h []byte) []byte { return append([]byte{22, 3, 1, byte(len(h) >> 8), byte(len(h))}, h...) }
+		for _, t := range types {
+			for L := 0; L <= maxL; L++ {
+				for pi, pre := range pres {
+					if pi > 0 && tier != "thorough" && t != 10 && t != 11 && t != 0x1234 {
+						continue // quick tier: extensions in front only for the types the parser looks into, and an unknown one
+					}
+					for vi, h := range c19LastExtHellos(t, L, pre, tier == "thorough") {
+						add(&c19In{Kind: "parse", Data: c19H(h)})
+						if vi < 4 || tier == "thorough" {
+							w := record(h)
+							add(&c19In{Kind: "conn", Data: c19H(w), Sizes: []int{len(w)}})
+							if vi == 0 || (tier == "thorough" && vi%4 == 0) {
+								add(&c19In{Kind: "conn", Data: c19H(w), Sizes: []int{7, len(w)}})
+							}
+						}
+						if pi == 0 && (vi < 2 || (tier == "thorough" && vi < 8)) {
+							add(&c19In{Kind: "tlsraw", Data: c19H(record(h))})
+						}
+					}
+				}
+			}
+		}
+	}
 	for i := 0; i < 300*mult; i++ {
 		add(&c19In{Kind: "hello", Hello: c19GenHello(r)})
 	}
@@ -1690,9 +1824,6 @@ func c19Gen(r *Rand, tier string) []interface{} {
 			}
 		}
 		for _, cs := range curveSets { // through the handler: Firefox and Tor user agents
-			if len(cs) == 5 && cs[4] == 256 && cs[3] == 25 && cs[2] == 24 {
-				continue // the known five-curve class is replayed from the corpus
-			}
 			add(&c19In{Kind: "mitm", UA: hx("Mozilla/5.0 (X11; Linux) Gecko/20100101 Firefox/55.0"), Info: &c19Info{Version: 771, Ciphers: ffC, Exts: ffE, Comp: "00", Curves: cs}})
 			add(&c19In{Kind: "mitm", UA: hx("Mozilla/5.0 (Windows NT 6.1; rv:52.0) Gecko/20100101 Firefox/52.0"), Info: &c19Info{Version: 771, Ciphers: ffC, Exts: torE, Comp: "00", Curves: cs}})
 		}
@@ -1807,7 +1938,8 @@ func c19Gen(r *Rand, tier string) []interface{} {
 	}
 	// --- header name/value sizes around writePairs' truncation
 	pairs := [][2]int{{20, 10}, {20, 65472}, {20, 65473}, {20, 65471}, {20, 70000}, {65000, 0}, {65000, 492}, {65000, 493}, {65000, 491},
-		{65491, 1}, {65492, 0}, {65492, 1}, {65492, 5}, {65490, 2}, {65490, 3}, {65491, 0}, {40000, 40000}, {127, 128}, {128, 127}}
+		{65491, 1}, {65492, 0}, {65492, 1}, {65492, 5}, {65490, 2}, {65490, 3}, {65491, 0}, {40000, 40000}, {127, 128}, {128, 127},
+		{65493, 0}, {65493, 3}, {65500, 1}, {65501, 2}, {66000, 100}, {131100, 7}} // the last six: a name that leaves no room for the value
 	for _, kv := range pairs {
 		add(&c19In{Kind: "pairs", KLen: kv[0], VLen: kv[1]})
 	}
@@ -1816,7 +1948,7 @@ func c19Gen(r *Rand, tier string) []interface{} {
 		add(&c19In{Kind: "pairs", KLen: k, VLen: c19Max(65500-8-k+r.Range(-3, 3), 0)})
 	}
 	// --- Status header sent by the backend
-	toks := []string{"200", "404", "100", "999", "+200", "abc", "", "20x", "2 00", "9223372036854775808", "200.0", "0x10", "1_0", "٣٠٠", "101", "304", "500", "+", "-"}
+	toks := []string{"200", "404", "100", "999", "99", "1000", "0", "-1", "-200", "1000 OK", "99999999999", "+200", "abc", "", "20x", "2 00", "9223372036854775808", "200.0", "0x10", "1_0", "٣٠٠", "101", "304", "500", "+", "-"}
 	for _, t := range toks {
 		add(&c19In{Kind: "status", Data: hx(t)})
 	}
@@ -1847,8 +1979,8 @@ func c19Gen(r *Rand, tier string) []interface{} {
 func init() {
 	register(&Property{
 		ID: "C19", Imports: "V.Lib V.C19_Model", Judge: "judge", Shard: 250,
-		Rule: "cases = real parseRawClientHello / looksLike* / tlsHandler / getVersion / clientHelloConn (hook), push middleware on Link headers, FastCGI client+handler against a scripted loopback responder, replacer, basicauth, raw requests to an in-process server; non-trivial = hello of >=42 bytes, heuristic evaluated, UA that is checked, multi-read delivery of a complete record, Link value that pushes or panics, record stream with data or a framing error, pair near the truncation limit, template with braces, request answered other than 400; distinct = distinct Coq case term",
-		Gen: c19Gen,
+		Rule: "cases = real parseRawClientHello / looksLike* / tlsHandler / getVersion / clientHelloConn (hook), push middleware on Link headers, FastCGI client+handler against a scripted loopback responder, replacer, basicauth, raw requests to an in-process server, raw ClientHello records to the running TLS server; hellos whose LAST extension (every type) has declared length 0..3 with a body of exactly that size and inner list lengths right/off by one are enumerated through the parser, clientHelloConn and the TLS server; non-trivial = hello of >=42 bytes, heuristic evaluated, UA that is checked, multi-read delivery of a complete record, Link value that pushes or panics, record stream with data or a framing error, pair near the truncation limit, template with braces, request answered other than 400; distinct = distinct Coq case term",
+		Gen:  c19Gen,
 		Decode: func(raw json.RawMessage) (interface{}, error) {
 			in := &c19In{}
 			return in, json.Unmarshal(raw, in)
